@@ -254,6 +254,16 @@ def run(ctx):
     # ---- g: separator
     lnd = cr.need_fn("<lang::line::Line as std::fmt::Display>::fmt")
     ctx.touch(lnd)
+    xf = re.compile(r"<impl str>::(replace\w*|trim\w*|to_\w*case|split\w*|chars|char_indices|"
+                    r"strip_\w+)$|String::(retain|remove|truncate|replace_range|pop|drain)$|"
+                    r"Iterator::(filter|skip|take|rev|step_by|skip_while|take_while)$")
+    odd = sorted({c.name for g in [lnd] + list(cr.closures_of(lnd.path)) for c in g.calls()
+                  if xf.search(c.name) or xf.search(c.callee or "")})
+    ctx.check(not odd, "C05.g", "Line::fmt/token-text-verbatim", lnd.span,
+              "the listed text is the tokens' own text, concatenated and written unchanged",
+              "Line's Display rewrites the joined token text (%s): characters inside a string "
+              "literal or a remark (a TAB, say) list differently from what was entered, so the "
+              "listing re-entered is another program" % odd)
     tpls = set()
     for bb in lnd.reachable():
         for s in tables.block_strings(lnd, bb):
